@@ -53,18 +53,35 @@ def sha(a):
     return hashlib.sha256(a.tobytes() + str(a.shape).encode() + str(a.dtype).encode()).hexdigest()
 
 
+def _hash_value(v):
+    if isinstance(v, np.ndarray):
+        return sha(v)
+    if isinstance(v, (list, tuple)):
+        return "[" + ",".join(_hash_value(x) for x in v) + "]"
+    if isinstance(v, dict):
+        return "{" + ",".join("%r:%s" % (k, _hash_value(x)) for k, x in sorted(v.items(), key=lambda kv: repr(kv[0]))) + "}"
+    return "%s:%r" % (type(v).__name__, v)
+
+
 def mesh_hashes(surfaces):
-    """SHA-256 of every user mesh array reachable from the surface dictionaries"""
+    """fingerprint of everything the user handed over: one entry per key of every surface dictionary (arrays by SHA-256 of
+    their bytes, shape and dtype; lists element-wise; scalars by type and repr), plus one entry per array of a
+    multi-section 'meshes' list.  A key that appears or disappears shows up as a changed set of entries."""
     out = {}
     for i, s in enumerate(surfaces):
-        if isinstance(s.get("mesh"), np.ndarray):
-            out["%d:%s:mesh" % (i, s.get("name"))] = sha(s["mesh"])
+        for k, v in s.items():
+            out["%d:%s:%s" % (i, s.get("name"), k)] = _hash_value(v)
         ms = s.get("meshes")
         if isinstance(ms, (list, tuple)):
             for j, m in enumerate(ms):
                 if isinstance(m, np.ndarray):
                     out["%d:%s:meshes[%d]" % (i, s.get("name"), j)] = sha(m)
     return out
+
+
+def added_keys(before, after, allowed=()):
+    """entries present after but not before (keys the library wrote into the user's dictionaries)"""
+    return sorted(k for k in after if k not in before and k.rsplit(":", 1)[-1] not in allowed)
 
 
 # ----------------------------------------------------------------------------------------------------------------
